@@ -141,6 +141,10 @@ pub fn inject_text(v: &mut Value, rng: &mut crate::rng::Rng, count: &mut usize) 
     const HOSTILE: &[&str] = &[
         "tab\there", "quote\"inside", "back\\slash", "cr\rlf", "ctl\u{1}\u{1f}x", "del\u{7f}x", "ls\u{2028}ps\u{2029}", "bmp é ß 日本語 Ω", "emoji 🙂 𝄞", "even-plane 𠮷 \u{E0101} \u{10FFFD}",
         "slash / and \u{8}bs \u{c}ff", "nbsp\u{a0}zwsp\u{200b}", "combining e\u{301}", " leading and trailing ", "}{][,:",
+        // the first and last code point of every UTF-8 sequence length and lead-byte range, each followed by ASCII
+        // and by another multi-byte character
+        "u80 \u{80}a\u{80}\u{e9} u7ff \u{7ff}b\u{7ff}\u{7c0}c", "u800 \u{800}d\u{800}\u{fff}e ud7ff \u{d7ff}f", "ue000 \u{e000}g\u{e000}\u{f8ff}h uffff \u{ff0c}i\u{fffd}j\u{ffff}k\u{fffd}\u{ff0c}",
+        "u10000 \u{10000}l\u{10000}\u{3ffff}m u10ffff \u{10ffff}n\u{100000}\u{10ffff}",
     ];
     match v {
         Value::String(s) => {
